@@ -7,6 +7,7 @@ import (
 	"sync/atomic"
 	"time"
 
+	"github.com/iotaledger/hive.go/runtime/debug"
 	"github.com/iotaledger/hive.go/runtime/syncutils"
 
 	"verif/harness/vx"
@@ -29,6 +30,47 @@ func within(d time.Duration, f func()) bool {
 	}
 }
 
+// guard: a panic inside a correctly used lock (e.g. an RUnlock that finds a writer active) must become a reported
+// failure with its input, not a crash of the harness; the run is given up at once (the other goroutines may be stuck).
+type guard struct {
+	once  sync.Once
+	abort chan struct{}
+	msg   atomic.Value
+}
+
+func newGuard() *guard { return &guard{abort: make(chan struct{})} }
+
+func (g *guard) recoverHere() {
+	if r := recover(); r != nil {
+		g.once.Do(func() {
+			g.msg.Store(fmt.Sprint(r))
+			close(g.abort)
+		})
+	}
+}
+
+func (g *guard) panicked() (string, bool) {
+	s, ok := g.msg.Load().(string)
+	return s, ok
+}
+
+// withinOrAbort is within that also gives up when the guard fires.
+func withinOrAbort(d time.Duration, g *guard, f func()) bool {
+	done := make(chan struct{})
+	go func() {
+		defer close(done)
+		f()
+	}()
+	select {
+	case <-done:
+		return true
+	case <-g.abort:
+		return false
+	case <-time.After(d):
+		return false
+	}
+}
+
 func panics(f func()) (p bool) {
 	defer func() {
 		if r := recover(); r != nil {
@@ -45,12 +87,27 @@ func smState(m *syncutils.StarvingMutex) string {
 }
 
 func failf(st *vx.Stats, kind string, format string, a ...any) {
-	st.Fail(map[string]any{"sig": "", "kind": kind, "why": fmt.Sprintf(format, a...)})
+	st.Fail(map[string]any{"sig": "", "kind": kind, "mode": modeName(), "why": fmt.Sprintf(format, a...)})
+}
+
+func modeName() string {
+	if debugMode {
+		return "debug.SetEnabled(true)"
+	}
+	return "default"
+}
+
+// caseKey: runs in the two modes are different cases
+func caseKey(k string) string {
+	if debugMode {
+		return "debug-mode:" + k
+	}
+	return k
 }
 
 // misuse: a wrong unlock panics, changes nothing and leaves the object usable.
 func misuse(st *vx.Stats) {
-	st.Case("misuse", true)
+	st.Case(caseKey("misuse"), true)
 	usable := func(m *syncutils.StarvingMutex) bool {
 		return within(3*time.Second, func() { m.RLock(); m.RUnlock(); m.Lock(); m.Unlock() })
 	}
@@ -95,7 +152,14 @@ func misuse(st *vx.Stats) {
 	if a, b := d.VerifSize(); a != 0 || b != 0 {
 		failf(st, "misuse", "DAGMutex registered something for an unregistered unlock: %d/%d", a, b)
 	}
-	if !within(3*time.Second, func() { d.Lock(7); d.Unlock(7); d.RLock(1, 7); d.RUnlock(1, 7); d.Lock(1); d.Unlock(1) }) {
+	if !within(3*time.Second, func() {
+		d.Lock(7)
+		d.Unlock(7)
+		d.RLock(1, 7)
+		d.RUnlock(1, 7)
+		d.Lock(1)
+		d.Unlock(1)
+	}) {
 		failf(st, "misuse", "DAGMutex unusable after the panic of an unregistered unlock")
 	}
 	// RUnlock(1, 7) with 7 unregistered while a writer waits for 1
@@ -130,6 +194,9 @@ func misuse(st *vx.Stats) {
 func freeSM(r *vx.Rng, st *vx.Stats, run int) {
 	g := 3 + r.Intn(6)
 	iters := 400
+	if debugMode {
+		iters = 150 // every acquisition captures a stack trace (1 MiB buffer) and starts a detector goroutine
+	}
 	writePct := vx.Pick(r, []int{10, 30, 50, 90})
 	m := syncutils.NewStarvingMutex()
 	var readers, writers, bad atomic.Int64
@@ -137,12 +204,14 @@ func freeSM(r *vx.Rng, st *vx.Stats, run int) {
 	for i := range seeds {
 		seeds[i] = r.Fork()
 	}
-	ok := within(freeTimeout, func() {
+	gd := newGuard()
+	ok := withinOrAbort(freeTimeout, gd, func() {
 		var wg sync.WaitGroup
 		for i := 0; i < g; i++ {
 			wg.Add(1)
 			go func(rr *vx.Rng) {
 				defer wg.Done()
+				defer gd.recoverHere()
 				for k := 0; k < iters; k++ {
 					if rr.Intn(100) < writePct {
 						m.Lock()
@@ -171,9 +240,11 @@ func freeSM(r *vx.Rng, st *vx.Stats, run int) {
 		}
 		wg.Wait()
 	})
-	st.Case(fmt.Sprintf("free-sm-%d", run), true)
+	st.Case(caseKey(fmt.Sprintf("free-sm-%d", run)), true)
 	st.Count("free:sm")
-	if !ok {
+	if p, is := gd.panicked(); is {
+		failf(st, "free-sm", "panic %q in a goroutine that only unlocks what it locked (%d goroutines, %d%% writers); %s", p, g, writePct, smState(m))
+	} else if !ok {
 		failf(st, "free-sm", "stall: %d goroutines (%d%% writers) did not finish; %s", g, writePct, smState(m))
 	} else if s := smState(m); s != "ra=0 wa=false pw=0 parkedR=0 parkedW=0" {
 		failf(st, "free-sm", "final state %s", s)
@@ -187,6 +258,9 @@ func freeSM(r *vx.Rng, st *vx.Stats, run int) {
 func freeDAG(r *vx.Rng, st *vx.Stats, run int) {
 	g := 3 + r.Intn(5)
 	iters := 300
+	if debugMode {
+		iters = 100
+	}
 	d := syncutils.NewDAGMutex[int]()
 	var readers, writers [3]atomic.Int64
 	var bad atomic.Int64
@@ -212,12 +286,14 @@ func freeDAG(r *vx.Rng, st *vx.Stats, run int) {
 	for i := range seeds {
 		seeds[i] = r.Fork()
 	}
-	ok := within(freeTimeout, func() {
+	gd := newGuard()
+	ok := withinOrAbort(freeTimeout, gd, func() {
 		var wg sync.WaitGroup
 		for i := 0; i < g; i++ {
 			wg.Add(1)
 			go func(rr *vx.Rng) {
 				defer wg.Done()
+				defer gd.recoverHere()
 				for k := 0; k < iters; k++ {
 					a := rr.Intn(3)
 					b := a + 1 + rr.Intn(3)
@@ -263,9 +339,11 @@ func freeDAG(r *vx.Rng, st *vx.Stats, run int) {
 		}
 		wg.Wait()
 	})
-	st.Case(fmt.Sprintf("free-dag-%d", run), true)
+	st.Case(caseKey(fmt.Sprintf("free-dag-%d", run)), true)
 	st.Count("free:dag")
-	if !ok {
+	if p, is := gd.panicked(); is {
+		failf(st, "free-dag", "panic %q in a goroutine that only unlocks what it locked (%d goroutines acquiring along 0<1<2)", p, g)
+	} else if !ok {
 		failf(st, "free-dag", "stall: %d goroutines acquiring along 0<1<2 did not finish", g)
 	} else if a, b := d.VerifSize(); a != 0 || b != 0 {
 		failf(st, "free-dag", "entities left registered after every lock was released: %d mutexes, %d counters", a, b)
@@ -303,7 +381,7 @@ func freeCounter(r *vx.Rng, st *vx.Stats, run int) {
 		}()
 		wg.Wait()
 	})
-	st.Case(fmt.Sprintf("free-counter-%d", run), true)
+	st.Case(caseKey(fmt.Sprintf("free-counter-%d", run)), true)
 	st.Count("free:counter")
 	if !ok {
 		v, pb, pa := c.VerifState()
@@ -372,7 +450,7 @@ func freeStack(r *vx.Rng, st *vx.Stats, run int) {
 		s.SignalShutdown()
 		cw.Wait()
 	})
-	st.Case(fmt.Sprintf("free-stack-%d", run), true)
+	st.Case(caseKey(fmt.Sprintf("free-stack-%d", run)), true)
 	st.Count("free:stack")
 	if !ok {
 		n, pa, px := s.VerifState()
@@ -397,7 +475,7 @@ func freeStack(r *vx.Rng, st *vx.Stats, run int) {
 // SignalShutdown has to wake the caller (it passes through the stack's mutex, which PopOrWait holds until it is
 // registered as a waiter). A bare Broadcast at that point is lost.
 func popOrWaitWindow(st *vx.Stats) {
-	st.Case("popOrWait-window", true)
+	st.Case(caseKey("popOrWait-window"), true)
 	st.Count("free:popOrWait-window")
 	s := syncutils.NewStack[int]()
 	var running atomic.Bool
@@ -428,6 +506,7 @@ func popOrWaitWindow(st *vx.Stats) {
 }
 
 func freeRuns(r *vx.Rng, st *vx.Stats, n int) {
+	st.Count("mode:" + modeName())
 	misuse(st)
 	popOrWaitWindow(st)
 	// a kind of run that failed once is not repeated (a stall costs freeTimeout; the failure is already reported)
@@ -440,7 +519,18 @@ func freeRuns(r *vx.Rng, st *vx.Stats, n int) {
 				continue
 			}
 			before := len(st.OracleFailures)
+			reports, begin := 0, time.Now()
+			if stdoutCapture != nil {
+				reports = stdoutCapture.reports()
+			}
 			f(rr, st, i)
+			// debug mode: a run that completed (nothing left blocked) well within the detection timeout had no wait worth
+			// a deadlock report
+			if c := stdoutCapture; c != nil && len(st.OracleFailures) == before && time.Since(begin) < debug.DeadlockDetectionTimeout/2 {
+				if k := c.reports() - reports; k > 0 {
+					failf(st, "detector", "%d deadlock report(s) during a contention run that completed within %v (debug.DeadlockDetectionTimeout=%v): %s", k, time.Since(begin), debug.DeadlockDetectionTimeout, c.text(1500))
+				}
+			}
 			dead[k] = len(st.OracleFailures) > before
 		}
 	}
